@@ -155,6 +155,7 @@ pub fn plan(shape: &BaseShape, ps: u64, scratch: &Path, window: usize) -> Result
         populate: false,
         txs: vec![build_tx(shape)],
         origin: format!("shape {}", shape.name),
+        pins: vec![],
     };
     let _ = std::fs::remove_file(scratch);
     let out = exec::run_history(&h, &ExecCfg::default(), scratch);
@@ -389,6 +390,7 @@ pub fn subset_history(p: &Plan, wi: usize, mask: u32, family: usize) -> History 
         strict: false,
         populate: false,
         txs,
+        pins: vec![],
         origin: format!(
             "shape={} depth={} leaves={} window={:?} mask={:#b} family={}",
             sh.name,
@@ -439,7 +441,7 @@ pub fn big_freelist_history(ps: u64, index: usize) -> Option<History> {
     txs.push(TxScript { ops: vec![Op::TxGet { k: K::lit(b"keep"), how: How::Slice }, mk(0, 2, 4000, 70)], end: End::Commit, reopen: true });
     txs.push(TxScript { ops: vec![Op::TxDelete { k: K::lit(b"big"), how: How::Slice }, Op::TxGet { k: K::lit(b"keep"), how: How::Slice }, mk(1, 3, 5000, 80)], end: End::Commit, reopen: false });
     txs.push(TxScript { ops: vec![Op::TxGet { k: K::lit(b"keep"), how: How::Slice }, mk(0, 4, 6000, 90)], end: End::Commit, reopen: true });
-    Some(History { pagesize: ps, num_pages: 8, strict: false, populate: false, txs, origin: format!("big free list: {} keys x {} B values", n_keys, vlen) })
+    Some(History { pagesize: ps, num_pages: 8, strict: false, populate: false, txs, origin: format!("big free list: {} keys x {} B values", n_keys, vlen), pins: vec![] })
 }
 
 /// Directed family: ONE commit that has to extend the file by more than one 8 MiB allocation step
@@ -480,7 +482,7 @@ pub fn big_commit_history(ps: u64, index: usize) -> Option<History> {
     txs.push(TxScript { ops, end: End::Commit, reopen: false });
     txs.push(TxScript { ops: vec![Op::TxDelete { k: K::lit(b"blobs"), how: How::Slice }, Op::TxGet { k: K::lit(b"small"), how: How::Slice }, put(1, 3, 9999, 20)], end: End::Commit, reopen: false });
     txs.push(TxScript { ops: vec![Op::TxGet { k: K::lit(b"small"), how: How::Slice }, put(0, 4, 10000, 20), Op::TxBuckets], end: End::Commit, reopen: true });
-    Some(History { pagesize: ps, num_pages: 4, strict: false, populate: false, txs, origin: format!("big commit: {} values x {} B in one transaction, page size {}", n, len, ps) })
+    Some(History { pagesize: ps, num_pages: 4, strict: false, populate: false, txs, origin: format!("big commit: {} values x {} B in one transaction, page size {}", n, len, ps), pins: vec![] })
 }
 
 /// Directed family: deep trees.  Keys of about a fifth of a page give branch pages a fan-out of
@@ -544,7 +546,7 @@ pub fn deep_tree_history(ps: u64, index: usize) -> Option<History> {
     ops.push(Op::Buckets { h: 0 });
     txs.push(TxScript { ops, end: End::Commit, reopen: false });
     txs.push(TxScript { ops: vec![Op::TxDelete { k: K::lit(b"deep"), how: How::Slice }, Op::TxCreate { k: K::lit(b"after"), how: How::Slice }, put(K::lit(b"x"), 7, 10)], end: End::Commit, reopen: true });
-    Some(History { pagesize: ps, num_pages: 8, strict: false, populate: false, txs, origin: format!("deep tree: {} keys of {} B, deletion plan {}", n, klen + 7, index % 6) })
+    Some(History { pagesize: ps, num_pages: 8, strict: false, populate: false, txs, origin: format!("deep tree: {} keys of {} B, deletion plan {}", n, klen + 7, index % 6), pins: vec![] })
 }
 
 /// Directed family: exact sizes.  One value is overwritten with every length from 0 to a little over
@@ -588,7 +590,7 @@ pub fn exact_fit_history(ps: u64, index: usize) -> Option<History> {
         ops.push(put(h, &key, 1000 + len as u64, len));
         txs.push(TxScript { ops, end: End::Commit, reopen: len % 509 == 7 });
     }
-    Some(History { pagesize: ps, num_pages: 16, strict: false, populate: false, txs, origin: format!("exact fit: one value swept over {}..={} B with {} neighbours{}", lo, hi, neighbours, if nested { " in a nested bucket" } else { "" }) })
+    Some(History { pagesize: ps, num_pages: 16, strict: false, populate: false, txs, origin: format!("exact fit: one value swept over {}..={} B with {} neighbours{}", lo, hi, neighbours, if nested { " in a nested bucket" } else { "" }), pins: vec![] })
 }
 
 /// Directed family: the free list shrinks (and grows) by about one entry per commit through the
@@ -628,7 +630,7 @@ pub fn freelist_walk_history(ps: u64, index: usize) -> Option<History> {
         }
         txs.push(TxScript { ops, end: End::Commit, reopen: index >= 2 });
     }
-    Some(History { pagesize: ps, num_pages: 8, strict: false, populate: false, txs, origin: format!("free-list walk: {} pages freed at once, then consumed one commit at a time (a free-list page holds {})", free_pages, per_page) })
+    Some(History { pagesize: ps, num_pages: 8, strict: false, populate: false, txs, origin: format!("free-list walk: {} pages freed at once, then consumed one commit at a time (a free-list page holds {})", free_pages, per_page), pins: vec![] })
 }
 
 /// Directed family: a "directory" bucket whose entries are all nested buckets with names of a fifth
@@ -662,7 +664,7 @@ pub fn bucket_dir_history(ps: u64, n: usize, d: usize, w: usize, extra_deletes: 
     let _ = nh;
     let tx1 = TxScript { ops, end: End::Commit, reopen: false };
     let tx2 = TxScript { ops: vec![Op::TxGet { k: K::lit(b"top"), how: How::Slice }, Op::Buckets { h: 0 }, Op::Create { h: 0, k: K::lit(b"zz-new"), how: How::Slice }], end: End::Commit, reopen: true };
-    History { pagesize: ps, num_pages: 8, strict: false, populate: false, txs: vec![tx0, tx1, tx2], origin: format!("bucket directory: {} nested buckets, delete #{} (+{}), write into #{}", n, d, extra_deletes, w) }
+    History { pagesize: ps, num_pages: 8, strict: false, populate: false, txs: vec![tx0, tx1, tx2], origin: format!("bucket directory: {} nested buckets, delete #{} (+{}), write into #{}", n, d, extra_deletes, w), pins: vec![] }
 }
 
 /// Directed family: the ROOT of the database (the directory of top-level buckets) as a multi-page tree.
@@ -695,7 +697,7 @@ pub fn root_dir_history(ps: u64, n: usize, a: usize, b: usize) -> History {
     let tx2 = TxScript { ops, end: End::Commit, reopen: (a + b) % 3 == 0 };
     let tx3 = TxScript { ops: vec![Op::TxGetOrCreate { k: name(n + 1), how: How::Slice }, put(0, b"after", 7, 30), Op::TxBuckets], end: End::Commit, reopen: true };
     let tx4 = TxScript { ops: vec![Op::TxGetOrCreate { k: name(0), how: How::Slice }, put(0, b"again", 8, 30)], end: End::Commit, reopen: false };
-    History { pagesize: ps, num_pages: 8, strict: false, populate: false, txs: vec![tx0, tx1, tx2, tx3, tx4], origin: format!("root directory: {} top-level buckets, delete #{}..{}", n, a, b) }
+    History { pagesize: ps, num_pages: 8, strict: false, populate: false, txs: vec![tx0, tx1, tx2, tx3, tx4], origin: format!("root directory: {} top-level buckets, delete #{}..{}", n, a, b), pins: vec![] }
 }
 
 // ---------------------------------------------------------------------------
@@ -906,6 +908,7 @@ pub fn nested_delete_history(ps: u64, index: usize) -> Option<History> {
         strict: false,
         populate: false,
         txs: vec![tx1, tx2, tx3],
+        pins: vec![],
         origin: format!(
             "nested-delete plan={:?} size={:?} pre={} post={}",
             plan, size, pre, post_mode
